@@ -1,5 +1,6 @@
 import Proofs.SqlBuildProj
 import Proofs.SqlFixedPoint
+import Proofs.SqlAttrNames
 
 set_option linter.unusedSimpArgs false
 
@@ -228,6 +229,9 @@ theorem deserialize_cellText (u : UC) (ty : Name) (v : Option Val) (txt : Text) 
 
 def upAttrs (u : UC) (attrs : List (Name × Name)) : List (Name × Name) := attrs.map fun a => (a.1, u.upper a.2)
 
+theorem attrNamesOk_upAttrs (u : UC) (attrs : List (Name × Name)) : attrNamesOk u (upAttrs u attrs) = attrNamesOk u attrs := by
+  simp only [attrNamesOk, upAttrs, List.map_map]; rfl
+
 /-- the cells stored for a printed row are the canonical values of the row -/
 theorem specCells_row (u : UC) (c : ClassB) : ∀ (attrs : List (Name × Name)) (vals : List (Option Val)) (texts : List Text),
     rowTexts u attrs vals = some texts → vals.length = attrs.length →
@@ -302,6 +306,8 @@ structure MM.Closed (u : UC) (m : MM) : Prop where
   ends : ∀ a ∈ m.assocs, (∃ c ∈ m.classes, c.kind = a.src.kind) ∧ a.src.keys.length = a.tgt.keys.length ∧
     ∃ c ∈ m.classes, c.kind = a.tgt.kind ∧ ∀ k ∈ a.tgt.keys, (c.attrs.map fun x => u.upper x.1).contains (u.upper k) = true
   rows : ∀ c ∈ m.classes, ∀ r ∈ c.rows, r.length = c.attrs.length
+  /-- within a class no two attribute names coincide after upper-casing (`define_class` accepts no other class) -/
+  attrNames : ∀ c ∈ m.classes, attrNamesOk u c.attrs = true
 
 /-- `items` writes every class of `m` once (in the order `S`), its associations (in the order `A`), and for each class
     its identifiers and rows in their own order -/
@@ -360,13 +366,18 @@ theorem buildOk_of_presents (u : UC) (m : MM) (hm : m.Closed u) (items : List It
     (stmts : List Stmt) (hp : Presents u m items S A) (hs : itemsStmts u items = some stmts) : BuildOk u stmts := by
   have hdecl := fun {c : ClassM} (hc : c ∈ m.classes) => declared_of_class u m items S A stmts hp hs hc
   have hcls := fun {b : ClassB} (hb : b ∈ newTables stmts) => class_of_declared u m items S A stmts hp hs hb
-  refine ⟨?_, ?_, ?_, ?_⟩
+  refine ⟨?_, ?_, ?_, ?_, ?_⟩
   · -- distinct kinds
     unfold KindsDistinct
     rw [(proj_items u items stmts hs).1, hp.tables, List.map_map]
     have : (S.map ((fun c : ClassB => u.upper c.kind) ∘ classB0 u)).Perm (m.classes.map fun c => u.upper c.kind) :=
       hp.permS.map _
     exact this.nodup_iff.mpr hm.distinct
+  · -- attribute names
+    intro b hb
+    obtain ⟨c, hc, rfl⟩ := hcls hb
+    simp only [classB0, attrNamesOk_upAttrs]
+    exact hm.attrNames c hc
   · -- identifiers
     intro kind name attrs hmem _
     obtain ⟨it, hit, hst⟩ := mem_itemsStmts u items stmts hs _ hmem
